@@ -67,6 +67,13 @@ MkNp(ix) == [t |-> "NextProtocol", proto |-> <<<<>>, <<104>>, Fill(1, 255)>>[ix[
              padding |-> <<<<>>, <<0, 0>>, Fill(2, 255)>>[ix[2]]]
 MkKu(k) == [t |-> "KeyUpdate", v |-> <<0, 1, 255>>[k]]
 
+(* opaque bodies stay opaque also when their bytes look like a structure (a u16-length-prefixed blob = a DH public value or *)
+(* an RSA-encrypted premaster secret, a u8-prefixed EC point, nested handshake headers)                                   *)
+LooksStructured == << <<0, 1, 17>>, BE16(64) \o Fill(6, 64), <<0, 0>>, <<1, 4>>, <<65>> \o Fill(7, 65), <<16, 0, 0, 3, 0, 1, 17>>, BE16(254) \o Fill(8, 254) >>
+StructuredOpaque ==
+  [k \in 1..Len(LooksStructured) |-> [t |-> "ClientKeyExchange", kind |-> "Unknown", data |-> LooksStructured[k]]]
+  \o [k \in 1..Len(LooksStructured) |-> IF k % 4 = 0 THEN [t |-> "ServerKeyExchange", params |-> LooksStructured[k]]
+                                         ELSE [t |-> <<"Finished", "CertificateVerify", "ServerDone">>[k % 4], data |-> LooksStructured[k]]]
 ValsDef ==
   MapSeq(ChIdx, MkCh) \o BigCh \o MapSeq(ShIdx, MkSh) \o MapSeq(Sh30Idx, MkSh30)
   \o MapSeq(D18Idx, MkD18) \o MapSeq(HrrIdx, MkHrr) \o MapSeq(NstIdx, MkNst) \o [k \in 1..5 |-> MkCert(k)]
@@ -74,6 +81,7 @@ ValsDef ==
   \o MapSeq(CrIdx, MkCr) \o MapSeq(CsIdx, MkCs) \o MapSeq(NpIdx, MkNp) \o [k \in 1..3 |-> MkKu(k)]
   \o << [t |-> "HelloRequest"], [t |-> "EndOfEarlyData"] >>
   \o MagicVals \o << LongChain(1024), LongChain(1025), LongChain(5000) >>
+  \o StructuredOpaque
 (* TLC does not cache constants whose definition uses parameterised function constructors: *)
 (* park them in TLC registers (2 = values, 3 = their encodings, 1 = cases)                 *)
 ASSUME TLCSet(2, ValsDef)
@@ -160,7 +168,9 @@ Rejects == <<
   <<22, 0, 0, 4, 1, 0, 0, 1>>, <<22, 0, 0, 5, 1, 0, 0, 9, 7>>,              \* status blob longer than the body
   <<22, 0, 0, 3, 1, 0, 0>>,
   <<67, 0, 0, 2, 5, 1>>, <<67, 0, 0, 1, 0>>, <<24, 0, 0, 0>>,               \* next protocol / key update cut
-  <<13, 0, 0, 1, 2>>, <<13, 0, 0, 3, 1, 1, 0>>, <<6, 0, 0, 3, 3, 4, 19>>   \* certificate request / HRR cut
+  <<13, 0, 0, 1, 2>>, <<13, 0, 0, 3, 1, 1, 0>>, <<6, 0, 0, 3, 3, 4, 19>>,  \* certificate request / HRR cut
+  <<13, 0, 0, 1, 0>>, <<13, 0, 0, 2, 1, 64>>, <<13, 0, 0, 4, 3, 1, 2, 64>>, \* certificate request ending right after its certificate types
+  <<13, 0, 0, 4, 1, 1, 0, 2>>, <<13, 0, 0, 3, 0, 0, 5>>
   >>
 RejectCases == [j \in 1..Len(Rejects) |->
   [kind |-> "reject", fn |-> HsFn, len |-> 0, bytes |-> Rejects[j], val |-> 0, extra |-> 0]]
